@@ -491,6 +491,20 @@ func main() {
 		cs = append(cs, srcCase{Name: fmt.Sprintf("overimm-%d", rs), Opt: "nodyn", Class: "immediate-too-wide", MustReject: true, Src: prog(rs, []string{fmt.Sprintf("mov r0, %d", max+1), "mov o0, r0"}, 0, 1)})
 		cs = append(cs, srcCase{Name: fmt.Sprintf("overimm-hex-%d", rs), Opt: "nodyn", Class: "immediate-too-wide", MustReject: true, Src: prog(rs, []string{fmt.Sprintf("rset r0, 0x1%x", max), "mov o0, r0"}, 0, 1)})
 	}
+	// numeric RAM addresses next to a wider instruction (rset): the last cell is fine, the first cell beyond
+	// the RAM (3 data words -> 4 cells) and further ones cannot fit
+	for _, a := range []int{0, 3, 4, 5, 6, 9} {
+		for _, store := range []bool{false, true} {
+			acc := fmt.Sprintf("mov r0, ram:%d", a)
+			if store {
+				acc = fmt.Sprintf("mov ram:%d, r0", a)
+			}
+			src := "%section code .romtext iomode:sync\n\tentry _start\n_start:\n\trset r1, 7\n\t" + acc + "\n\tr2o r0, o0\n\tj _start\n%endsection\n" +
+				"%section dat .ramdata\n\tv db 0x01, 0x02, 0x03\n%endsection\n%meta cpdef cpu romcode: code, ramdata: dat\n" +
+				"%meta ioatt tout cp: cpu, index:0, type:output\n%meta ioatt tout cp: bm, index:0, type:output\n%meta bmdef global registersize:8\n"
+			cs = append(cs, srcCase{Name: fmt.Sprintf("ramaddr-%d-store-%v", a, store), Opt: "nodyn", Class: "ram-address", MustReject: a >= 4, Src: src})
+		}
+	}
 	cs = append(cs, srcCase{Name: "undefined-label", Opt: "nodyn", Class: "undefined-label", MustReject: true, Src: prog(8, []string{"inc r0", "jz r0, nowhere", "mov o0, r0"}, 0, 1)})
 	cs = append(cs, srcCase{Name: "unknown-opcode", Opt: "nodyn", Class: "unknown-opcode", MustReject: true, Src: prog(8, []string{"frobnicate r0", "mov o0, r0"}, 0, 1)})
 	cs = append(cs, srcCase{Name: "regsize-0", Opt: "nodyn", Class: "register-size", MustReject: true, Src: prog(0, []string{"inc r0", "mov o0, r0"}, 0, 1)})
